@@ -318,6 +318,16 @@ theorem entry_points_behaviour :
     entryProbe = [("render:default", [1]), ("render:True", [1]), ("render:False", [101]), ("owrapped", [50, 1])] := by
   decide
 
+/-- BEHAVIOURAL.  The shim policy the legacy authentication + authorization pair installs
+(`LegacySecurityPolicy.permits`), called on ONE request for (c1,p), (c2,p), (c1,q), (c1,p): every call asks the
+AUTHORIZATION policy exactly once, about exactly (that context, the authentication policy's effective principals, that
+permission), and passes its answer on — no answer is carried over from an earlier call with the same permission name or
+the same context (a question is coded 100·context + 10·permission + 1 when the principals are the effective ones).
+(This is what lets the model treat the legacy pair as a policy function of (context, permission).) -/
+theorem legacy_shim_behaviour :
+    legacyShimProbe = [(1, 1, [111], true), (2, 1, [211], false), (1, 2, [121], false), (1, 1, [111], true)] := by
+  decide
+
 /-- `excPhase` is the exception-view lookup followed by `excOutcome` -/
 theorem excPhase_outcome (views : List DView) (w : World) (q : Req) (k : Nat) :
     (excPhase chain views w q k).2 =
